@@ -83,10 +83,11 @@ UNITS_ATTACHED = [("m", {"meter": 1}), ("kg", {"kilogram": 1}), ("s", {"second":
 
 
 class Note:
-    __slots__ = ("text", "n", "s", "units", "fields")
+    __slots__ = ("text", "n", "s", "units", "fields", "body", "utext")
 
-    def __init__(self, text, n, s, units, fields):
+    def __init__(self, text, n, s, units, fields, body, utext):
         self.text, self.n, self.s, self.units, self.fields = text, n, s, units, fields
+        self.body, self.utext = body, utext
 
 
 def gen_note(rng, form=None, exp=None, sign=None, unitpos=None) -> Note:
@@ -112,11 +113,14 @@ def gen_note(rng, form=None, exp=None, sign=None, unitpos=None) -> Note:
         S = rand_lit(rng, maxint=1, maxdec=2, mindec=1)
         digits_rel = "literal"
     if form == "bare-pm":
-        exp = "none" if exp is None else exp
-        if exp not in ("none", "in-literal"):
+        if exp is None:
+            exp = "in-literal" if rng.random() < 0.3 else "none"
+        elif exp not in ("none", "in-literal"):
             exp = "none"
-        if exp == "none" and rng.random() < 0.3:
-            exp = "in-literal"
+    elif form == "paren-pm" and exp is None and rng.random() < 0.08:
+        exp = "in-literal"
+    elif exp == "in-literal" and form.startswith("shorthand"):
+        exp = "none"
     exp = exp or rng.choice(EXP_FORMS)
     if exp == "in-literal":
         k = rng.choice((1, 2, 3, 6, 12))
@@ -157,7 +161,7 @@ def gen_note(rng, form=None, exp=None, sign=None, unitpos=None) -> Note:
         ut, ud = rng.choice(UNITS_SPACED)
         text = body + rng.choice((" * ", "*")) + ut
     else:
-        ud = {}
+        ut, ud = "", {}
         text = body
     n = lit_value(N) * scale * (-1 if sign.startswith("minus") else 1)
     if form == "shorthand":
@@ -168,7 +172,7 @@ def gen_note(rng, form=None, exp=None, sign=None, unitpos=None) -> Note:
               "pm": "unicode" if pm == "±" else "ascii", "digits": digits_rel}
     if form in ("shorthand", "shorthand-literal"):
         fields["pm"] = "n/a"
-    return Note(text, n, s, ud, fields)
+    return Note(text, n, s, ud, fields, body, ut)
 
 
 # --------------------------------------------------------------------------------------
@@ -199,6 +203,18 @@ def normalise_rendered(num: str, family: str) -> str:
     return re.sub(r"\s+", "", s)
 
 
+def _quantum(lit: str) -> F:
+    """Value of the last significant written digit; trailing zeros of an integer literal are
+    place holders, not significant ('10000' may be 9694 rounded to one digit)."""
+    if "." in lit:
+        return F(1, 10 ** lit_decimals(lit))
+    digits = lit.lstrip("+-")
+    tz = len(digits) - len(digits.rstrip("0"))
+    if tz == len(digits):       # "0"
+        return F(1)
+    return F(10) ** tz
+
+
 def read_number_part(txt: str):
     """txt: normalised numeric part.  -> dict(form, n, s, qn, qs, percent, exp) or None.
     n, s exact Fractions as written; qn/qs the value of one unit of the last written digit."""
@@ -215,13 +231,13 @@ def read_number_part(txt: str):
             if pct:
                 scale /= 100
             n = lit_value(N) * scale
-            qn = F(1, 10 ** lit_decimals(N)) * scale
+            qn = _quantum(N) * scale
             if form == "shorthand" and "." not in S:
                 s = F(int(S), 10 ** lit_decimals(N)) * scale
                 qs = qn
             else:
                 s = lit_value(S) * scale
-                qs = F(1, 10 ** lit_decimals(S)) * scale
+                qs = _quantum(S) * scale
             return {"form": form, "n": n, "s": s, "qn": qn, "qs": qs, "percent": bool(pct),
                     "exp": E is not None, "N": N, "S": S, "wrapped": t is not txt}
     return None
